@@ -251,24 +251,25 @@ Definition proxes := [PNone; PNonneg; PL1; PL2; PL2sq; PUnimodal; PNormalize; PS
 Definition bools2 := [false; true].
 Definition families := [FParafac; FNNParafac; FNNParafacHals; FConstrained; FTucker; FPartialTucker; FNNTucker; FNNTuckerHals;
    FRobustPca; FProx; FHalsNnls; FFista; FActiveSet; FAdmm; FSvd; FCpNormalize; FPure; FRandom; FSampleKR; FIndexed; FPermute; FFlipSign;
-   FRandParafac; FParafac2; FSvdChain; FTrAls; FTrAlsSampled; FTTCross; FCmtf; FPower; FCpReg; FTuckerReg; FPlsr; FMoment; FMetric; FCompress].
+   FRandParafac; FParafac2; FSvdChain; FTrAls; FTrAlsSampled; FTTCross; FCmtf; FPower; FCpReg; FTuckerReg; FPlsr; FMoment; FMetric; FCompress;
+   FMaskMulCast].
 (* Which options a family's skeleton looks at.  norm_cfg clears every option the family ignores; skeleton_norm proves (by
    computation, family by family, with the option values left symbolic) that the skeleton does not change - so the option space
    that has to be enumerated is the normalised one, and the theorems below hold for EVERY cfg of every listed family. *)
 Definition uses_prox (f : family) : bool := match f with FProx | FAdmm | FConstrained => true | _ => false end.
 Definition rel_init (f : family) : bool := match f with FParafac | FNNParafac | FNNParafacHals | FConstrained | FTucker | FPartialTucker
-  | FNNTucker | FNNTuckerHals | FRandParafac | FParafac2 => true | _ => false end.
+  | FNNTucker | FNNTuckerHals | FRandParafac | FParafac2 | FCmtf => true | _ => false end.
 Definition rel_mask (f : family) : bool := match f with FParafac | FNNParafac | FNNParafacHals | FTucker | FPartialTucker | FNNTucker
-  | FNNTuckerHals | FRobustPca | FSvd => true | _ => false end.
+  | FNNTuckerHals | FRobustPca | FSvd | FMaskMul | FMaskMulCast => true | _ => false end.
 Definition rel_errors (f : family) : bool := match f with FParafac | FNNParafac | FNNParafacHals | FConstrained | FTucker | FPartialTucker
   | FNNTucker | FNNTuckerHals | FRandParafac | FParafac2 => true | _ => false end.
-Definition rel_normalize (f : family) : bool := match f with FParafac | FNNParafac | FNNParafacHals | FNNTuckerHals | FParafac2 | FRandom => true | _ => false end.
+Definition rel_normalize (f : family) : bool := match f with FParafac | FNNParafac | FNNParafacHals | FNNTuckerHals | FParafac2 | FRandom | FCmtf => true | _ => false end.
 Definition rel_ls (f : family) : bool := match f with FParafac | FParafac2 => true | _ => false end.
 Definition rel_sp (f : family) : bool := match f with FParafac => true | _ => false end.
 Definition rel_l2 (f : family) : bool := match f with FParafac => true | _ => false end.
 Definition rel_warm (f : family) : bool := match f with FHalsNnls | FFista | FActiveSet | FRandom => true | _ => false end.
 Definition rel_fb (f : family) : bool := match f with FActiveSet => true | _ => false end.
-Definition rel_alt (f : family) : bool := match f with FNNTuckerHals | FSvd | FParafac2 | FRandom => true | _ => false end.
+Definition rel_alt (f : family) : bool := match f with FNNTuckerHals | FSvd | FParafac2 | FRandom | FMaskMul | FMaskMulCast => true | _ => false end.
 
 Definition norm_cfg (c : cfg) : cfg :=
   let f := c_fam c in
@@ -297,13 +298,15 @@ Lemma In_init_opt (r : bool) i : In (if r then i else IRandom) (if r then inits 
 Proof. destruct r; [apply In_inits | simpl; tauto]. Qed.
 Lemma In_prox_opt (r : bool) k : In (if r then k else PNone) (if r then proxes else [PNone]).
 Proof. destruct r; [apply In_proxes | simpl; tauto]. Qed.
-(* every configuration of a listed family (all families except the documented float64 one, FLeverage) *)
+(* every configuration of a listed family: all families except the documented float64 one (FLeverage) and the plain mask
+   multipliers as the code is now (FMaskMul: known finding, characterised exactly by mask_mul_is_promotion below; the
+   candidate repair FMaskMulCast is listed) *)
 Definition valid_cfg (c : cfg) : Prop := In (c_fam c) families.
-Lemma valid_cfg_iff c : valid_cfg c <-> c_fam c <> FLeverage.
+Lemma valid_cfg_iff c : valid_cfg c <-> (c_fam c <> FLeverage /\ c_fam c <> FMaskMul).
 Proof.
   unfold valid_cfg. split.
-  - intros H E. rewrite E in H. simpl in H. repeat (destruct H as [H|H]; [discriminate H|]). exact H.
-  - intros H. destruct (c_fam c); simpl; try tauto; exfalso; apply H; reflexivity.
+  - intros H. split; intros E; rewrite E in H; simpl in H; repeat (destruct H as [H|H]; [discriminate H|]); exact H.
+  - intros [H1 H2]. destruct (c_fam c); simpl; try tauto; exfalso; first [apply H1; reflexivity | apply H2; reflexivity].
 Qed.
 Lemma all_cfgs_complete c : valid_cfg c -> In (norm_cfg c) all_cfgs.
 Proof.
@@ -630,3 +633,159 @@ Proof.
   cbn [fst] in H. rewrite Hf, Hr in H. simpl in H.
   exact (out_exact_sound (mkenv t t) (skeleton (norm_cfg c)) (s, e) Ht H n).
 Qed.
+
+(* ---- the plain mask multipliers: cp_to_tensor / khatri_rao / cp_lstsq_grad with mask= *)
+Lemma iter_id {A} (f : A -> A) : (forall x, f x = x) -> forall n x, iter n f x = x.
+Proof. intros H. induction n as [|n IH]; simpl; intros x; [reflexivity | rewrite H; apply IH]. Qed.
+Lemma run_no_body en p n : p_body p = [] -> run en p n = run en p 0.
+Proof. intros E. unfold run. rewrite E. simpl. apply iter_id. reflexivity. Qed.
+Lemma mask_mul_no_body cast masked alt : p_body (mask_mul_prog cast masked alt) = [].
+Proof. reflexivity. Qed.
+
+(* the code as it is: every output is EXACTLY the NumPy promotion of the data's dtype with the mask's dtype *)
+Lemma mask_mul_is_promotion_b :
+  forallb (fun alt => forallb (fun t => forallb (fun m =>
+     forallb (fun o => dt_eqb (snd o) (promote t m)) (out_dtypes (mkenv t m) (mask_mul_prog false true alt) 0)) mask_dts) ctxs) bools2 = true.
+Proof. vm_compute. reflexivity. Qed.
+Theorem mask_mul_is_promotion alt t m n s e : In t ctxs -> In m mask_dts ->
+  In (s, e) (p_outs (mask_mul_prog false true alt)) ->
+  eval (mkenv t m) (run (mkenv t m) (mask_mul_prog false true alt) n) e = promote t m.
+Proof.
+  intros Ht Hm Hin. rewrite (run_no_body _ _ n (mask_mul_no_body false true alt)).
+  pose proof mask_mul_is_promotion_b as H. rewrite forallb_forall in H. specialize (H alt (In_bools2 alt)).
+  rewrite forallb_forall in H. specialize (H t Ht). rewrite forallb_forall in H. specialize (H m Hm).
+  rewrite forallb_forall in H. unfold out_dtypes in H.
+  specialize (H (s, eval (mkenv t m) (run (mkenv t m) (mask_mul_prog false true alt) 0) e)).
+  apply dt_eqb_eq. apply H. apply (in_map (fun o => (fst o, eval (mkenv t m) (run (mkenv t m) (mask_mul_prog false true alt) 0) (snd o))) _ (s, e) Hin).
+Qed.
+(* hence: in the context t the result stays t exactly for the masks that t absorbs *)
+Definition mask_absorbed (t m : dt) : bool := dt_eqb (promote t m) t.
+Corollary mask_mul_partial alt t m n s e : In t ctxs -> In m mask_dts -> mask_absorbed t m = true ->
+  In (s, e) (p_outs (mask_mul_prog false true alt)) ->
+  eval (mkenv t m) (run (mkenv t m) (mask_mul_prog false true alt) n) e = t.
+Proof. intros Ht Hm Ha Hin. rewrite (mask_mul_is_promotion alt t m n s e Ht Hm Hin). apply dt_eqb_eq, Ha. Qed.
+(* which masks a context absorbs: single precision only bool and its own precision class; double precision everything real (complex128: everything) *)
+Lemma mask_absorbed_spec : forall t m, In t ctxs -> In m mask_dts ->
+  mask_absorbed t m = (dt_eqb m B || dt_eqb m t || dt_eqb m (real_of t)
+                       || (dt_eqb t F64 && negb (dt_eqb m C64) && negb (dt_eqb m C128)) || dt_eqb t C128).
+Proof.
+  intros t m Ht Hm. simpl in Ht, Hm.
+  destruct Ht as [<-|[<-|[<-|[<-|[]]]]]; destruct Hm as [<-|[<-|[<-|[<-|[<-|[<-|[]]]]]]]; reflexivity.
+Qed.
+Lemma mask_mul_int_mask_refuted : exists alt n s e, In (s, e) (p_outs (mask_mul_prog false true alt)) /\
+  eval (mkenv F32 I64) (run (mkenv F32 I64) (mask_mul_prog false true alt) n) e = F64.
+Proof. exists false, 0, "out0", (Op (Op (Op F_ W_) F_) M_). split; [simpl; tauto | reflexivity]. Qed.
+Lemma mask_mul_f64_mask_refuted : exists alt n s e, In (s, e) (p_outs (mask_mul_prog false true alt)) /\
+  eval (mkenv C64 F64) (run (mkenv C64 F64) (mask_mul_prog false true alt) n) e = C128.
+Proof. exists true, 3, "weights", (ctx_of (Op (Op (Op In_ (Op (Op F_ W_) F_)) M_) (Op W_ F_))). split; [simpl; tauto | reflexivity]. Qed.
+(* without a mask the three entry points keep the context exactly *)
+Lemma mask_mul_unmasked cast alt t m n s e : In t ctxs -> In (s, e) (p_outs (mask_mul_prog cast false alt)) ->
+  eval (mkenv t m) (run (mkenv t m) (mask_mul_prog cast false alt) n) e = t.
+Proof.
+  intros Ht Hin. rewrite (run_no_body _ _ n (mask_mul_no_body cast false alt)).
+  simpl in Ht. destruct Ht as [<-|[<-|[<-|[<-|[]]]]]; destruct cast, alt; simpl in Hin;
+    repeat (destruct Hin as [Hin|Hin]; [injection Hin as <- <-; reflexivity|]); destruct Hin.
+Qed.
+(* the candidate repair is an instance of the general theorems (FMaskMulCast is a listed family) *)
+Definition maskmul_cast_cfg (alt : bool) := mkcfg FMaskMulCast IRandom true false false false false false PNone false false alt.
+Lemma mask_mul_cast_any_mask alt t m n s e : In t ctxs -> In (s, e) (p_outs (skeleton (maskmul_cast_cfg alt))) ->
+  eval (mkenv t m) (run (mkenv t m) (skeleton (maskmul_cast_cfg alt)) n) e = t.
+Proof.
+  intros Ht Hin. apply (outputs_exact_context t m (maskmul_cast_cfg alt) n s e Ht).
+  - unfold valid_cfg. simpl. repeat (try (left; reflexivity); right).
+  - exact Hin.
+  - destruct alt; simpl in Hin; repeat (destruct Hin as [Hin|Hin]; [injection Hin as <- <-; reflexivity|]); destruct Hin.
+  - destruct alt; simpl in Hin; repeat (destruct Hin as [Hin|Hin]; [injection Hin as <- <-; reflexivity|]); destruct Hin.
+Qed.
+
+(* ---- the exact-context variant of the tolerant check (extracted programs): soundness *)
+Definition Inv2X (t : dt) (D X : list bool) (st : state) : Prop :=
+  (forall x, getb D x = true -> inP t (st x) = true) /\ (forall x, getb X x = true -> st x = t).
+
+Lemma expr2X_sound en st D X e : In (tau en) ctxs -> Inv2X (tau en) D X st -> ok_expr2 en D e = true ->
+  inP (tau en) (eval en st e) = true /\ (exact_expr2 en X e = true -> eval en st e = tau en).
+Proof.
+  intros Ht [HD HX]. induction e as [l|x|a IHa b IHb|a IHa b IHb|a IHa|a IHa|tg IHt v IHv]; simpl; intros Hok.
+  - split; [exact Hok | apply dt_eqb_eq].
+  - split; [apply HD, Hok | apply HX].
+  - apply andb_prop in Hok. destruct Hok as [Oa Ob]. destruct (IHa Oa) as [Pa Xa]. destruct (IHb Ob) as [Pb Xb].
+    destruct (P_closed _ _ _ Ht Pa Pb) as [Pab _]. split; [exact Pab|]. intros Hs.
+    apply (P_exact _ _ _ Ht Pa Pb). apply orb_prop in Hs. destruct Hs as [Hs|Hs]; [left; apply Xa, Hs | right; apply Xb, Hs].
+  - apply andb_prop in Hok. destruct Hok as [Oa Ob]. destruct (IHa Oa) as [Pa Xa]. destruct (IHb Ob) as [Pb Xb].
+    destruct (P_closed _ _ _ Ht Pa Pb) as [Pab _]. destruct (P_unary _ _ Ht Pab) as [Pf _]. split; [exact Pf|]. intros Hs.
+    apply (P_exact _ _ _ Ht Pa Pb). apply orb_prop in Hs. destruct Hs as [Hs|Hs]; [left; apply Xa, Hs | right; apply Xb, Hs].
+  - destruct (IHa Hok) as [Pa Xa]. destruct (P_unary _ _ Ht Pa) as [Pf _]. split; [exact Pf|]. intros Hs.
+    rewrite (Xa Hs). apply to_float_ctx, Ht.
+  - destruct (IHa Hok) as [Pa _]. destruct (P_unary _ _ Ht Pa) as [_ [Pr _]]. split; [exact Pr | discriminate].
+  - exact (IHt Hok).
+Qed.
+
+Lemma block2X_sound en b : In (tau en) ctxs -> forall D X st D' X', Inv2X (tau en) D X st ->
+  exact_block2 en D X b = (D', X') -> Inv2X (tau en) D' X' (exec en st b).
+Proof.
+  intros Ht. induction b as [|[x e] r IH]; simpl; intros D X st D' X' HI Hok.
+  - injection Hok as <- <-. exact HI.
+  - unfold exec. simpl. fold (exec en (upd st x (eval en st e)) r).
+    eapply IH; [|exact Hok]. pose proof HI as [HD HX]. split.
+    + intros y Hy. unfold upd. destruct (Nat.eqb y x) eqn:E.
+      * apply Nat.eqb_eq in E. subst y. rewrite getb_setb_same in Hy.
+        destruct (expr2X_sound en st D X e Ht HI Hy) as [Pe _]. exact Pe.
+      * apply Nat.eqb_neq in E. rewrite getb_setb_other in Hy by exact E. apply HD, Hy.
+    + intros y Hy. unfold upd. destruct (Nat.eqb y x) eqn:E.
+      * apply Nat.eqb_eq in E. subst y. rewrite getb_setb_same in Hy. apply andb_prop in Hy. destruct Hy as [Oe Se].
+        destruct (expr2X_sound en st D X e Ht HI Oe) as [_ H]. apply H, Se.
+      * apply Nat.eqb_neq in E. rewrite getb_setb_other in Hy by exact E. apply HX, Hy.
+Qed.
+Lemma Inv2X_st0 t : Inv2X t [] [] st0.
+Proof. split; intros x H; rewrite getb_nil in H; discriminate. Qed.
+
+Theorem all_exact2_sound en p want : In (tau en) ctxs -> all_exact2 en p want = true ->
+  forall k o, In k want -> nth_error (p_outs p) k = Some o -> forall n, eval en (run en p n) (snd o) = tau en.
+Proof.
+  intros Ht Hok k o Hk Ho n. unfold all_exact2 in Hok.
+  destruct (exact_block2 en [] [] (p_init p)) as [D1 X1] eqn:E1.
+  destruct (exact_block2 en D1 X1 (p_body p)) as [D2 X2] eqn:E2.
+  apply andb_prop in Hok. destruct Hok as [Hsub Houts]. apply andb_prop in Hsub. destruct Hsub as [HsD HsX].
+  assert (I1 : Inv2X (tau en) D1 X1 (exec en st0 (p_init p))) by (eapply block2X_sound; [exact Ht | apply Inv2X_st0 | exact E1]).
+  assert (In_ : Inv2X (tau en) D1 X1 (run en p n)).
+  { unfold run. apply iter_inv; [|exact I1]. intros st HI.
+    destruct (block2X_sound en (p_body p) Ht D1 X1 st D2 X2 HI E2) as [HD HX]. split.
+    - intros x Hx. apply HD. eapply subb_spec; eauto.
+    - intros x Hx. apply HX. eapply subb_spec; eauto. }
+  rewrite forallb_forall in Houts. specialize (Houts k Hk). rewrite Ho in Houts. apply andb_prop in Houts.
+  destruct Houts as [Oe Xe]. destruct (expr2X_sound en (run en p n) D1 X1 (snd o) Ht In_ Oe) as [_ H]. apply H, Xe.
+Qed.
+Theorem ext_exact_any_sound p want : ext_exact_any p want = true -> forall t m, In t ctxs -> In m mask_dts ->
+  forall k o, In k want -> nth_error (p_outs p) k = Some o -> forall n, eval (mkenv t m) (run (mkenv t m) p n) (snd o) = t.
+Proof.
+  intros H t m Ht Hm. unfold ext_exact_any in H. rewrite forallb_forall in H. specialize (H t Ht).
+  rewrite forallb_forall in H. specialize (H m Hm). exact (all_exact2_sound (mkenv t m) p want Ht H).
+Qed.
+Theorem ext_exact_same_sound p want : ext_exact_same p want = true -> forall t, In t ctxs ->
+  forall k o, In k want -> nth_error (p_outs p) k = Some o -> forall n, eval (mkenv t t) (run (mkenv t t) p n) (snd o) = t.
+Proof.
+  intros H t Ht. unfold ext_exact_same in H. rewrite forallb_forall in H. specialize (H t Ht).
+  exact (all_exact2_sound (mkenv t t) p want Ht H).
+Qed.
+(* the two certification levels are ordered: every context is one of the mask dtypes *)
+Lemma ctxs_in_mask_dts t : In t ctxs -> In t mask_dts.
+Proof. simpl. intros [<-|[<-|[<-|[<-|[]]]]]; tauto. Qed.
+Theorem ext_ok_any_implies_same p : ext_ok_any p = true -> ext_ok_same p = true.
+Proof.
+  unfold ext_ok_any, ext_ok_same. intros H. rewrite forallb_forall in H |- *. intros t Ht.
+  specialize (H t Ht). rewrite forallb_forall in H. exact (H t (ctxs_in_mask_dts t Ht)).
+Qed.
+Theorem ext_exact_any_implies_same p want : ext_exact_any p want = true -> ext_exact_same p want = true.
+Proof.
+  unfold ext_exact_any, ext_exact_same. intros H. rewrite forallb_forall in H |- *. intros t Ht.
+  specialize (H t Ht). rewrite forallb_forall in H. exact (H t (ctxs_in_mask_dts t Ht)).
+Qed.
+(* non-vacuity / sensitivity: a cast to the real type or an abs on the way keeps the precision class (prog_ok2) but not the context *)
+Example all_exact2_example :
+  let p1 := mkprog [(0, In_); (1, Op (Var 0) (Into (Var 0) bare)); (2, RealOf (Var 1))] [(1, Op (Var 1) PyF)] [("*", Var 1); ("*", Var 2)] in
+  ext_exact_any p1 [0] = true /\ ext_exact_any p1 [0; 1] = false /\ ext_ok_any p1 = true /\
+  all_exact2 (mkenv F32 B) p1 [0] = true /\ all_exact2 (mkenv C64 B) p1 [1] = false /\
+  ext_exact_any (mkprog [(0, In_); (1, Op (Var 0) (Leaf (LConst F32)))] [] [("*", Var 1)]) [0] = false /\
+  prog_ok2 (mkenv C64 C64) (mkprog [(0, In_); (1, Into (Leaf (LConst F32)) (Var 0))] [] [("*", Var 1)]) = true /\
+  all_exact2 (mkenv C64 C64) (mkprog [(0, In_); (1, Into (Leaf (LConst F32)) (Var 0))] [] [("*", Var 1)]) [0] = false.
+Proof. repeat split; vm_compute; reflexivity. Qed.
